@@ -54,24 +54,29 @@ const (
 	sigStaleCount      = "limit/first-time-missing-not-requested/same-16-bit-value-requested-a-cycle-earlier"
 	sigOverAfterSilent = "limit/requested-more-than-limit/after-size32768-skip0-silent-tick"
 
-	sigOmitted      = "nack-set/missing-not-requested/unexplained"
-	sigReqAhead     = "nack-set/requested-ahead-of-highest"
-	sigReqSkip      = "nack-set/requested-inside-skip-last-n"
-	sigReqReceived  = "nack-set/requested-received-number"
-	sigReqFirst     = "nack-set/requested-not-after-first"
-	sigReqWindow    = "nack-set/requested-outside-window"
-	sigReqNoPacket  = "nack-set/requested-before-any-packet"
-	sigOverLimit    = "limit/requested-more-than-limit"
-	sigFirstTime    = "limit/first-time-missing-not-requested"
-	sigTwoPackets   = "packets/more-than-one-nack-per-ssrc-per-tick"
-	sigDupNumber    = "packets/duplicate-number-in-tick"
-	sigNoFeedback   = "stream/nack-for-stream-without-nack-feedback"
-	sigUnboundSSRC  = "stream/nack-for-unbound-ssrc"
-	modelBase       = int64(1) << 32
-	histKeep        = 40
-	maxForks        = 4
-	quickGenerated  = 1600
-	thoroughGenCase = 20000
+	sigOmitted     = "nack-set/missing-not-requested/unexplained"
+	sigReqAhead    = "nack-set/requested-ahead-of-highest"
+	sigReqSkip     = "nack-set/requested-inside-skip-last-n"
+	sigReqReceived = "nack-set/requested-received-number"
+	sigReqFirst    = "nack-set/requested-not-after-first"
+	sigReqWindow   = "nack-set/requested-outside-window"
+	sigReqNoPacket = "nack-set/requested-before-any-packet"
+	sigOverLimit   = "limit/requested-more-than-limit"
+	sigFirstTime   = "limit/first-time-missing-not-requested"
+	sigTwoPackets  = "packets/more-than-one-nack-per-ssrc-per-tick"
+	sigDupNumber   = "packets/duplicate-number-in-tick"
+	sigNoFeedback  = "stream/nack-for-stream-without-nack-feedback"
+	sigUnboundSSRC = "stream/nack-for-unbound-ssrc"
+	// stream bookkeeping inside a history (UnbindRemoteStream / BindRemoteStream)
+	sigUnboundStream  = "stream/nack-for-unbound-stream"
+	sigReboundNotSrv  = "stream/rebound-stream-not-served"
+	sigLateBoundNoSrv = "stream/stream-bound-mid-history-not-served"
+	sigStateSurvives  = "stream/state-survives-rebind"
+	modelBase         = int64(1) << 32
+	histKeep          = 40
+	maxForks          = 4
+	quickGenerated    = 1600
+	thoroughGenCase   = 20000
 )
 
 var sizes = []int{64, 128, 256, 512, 1024, 2048, 4096, 8192, 16384, 32768}
@@ -194,6 +199,8 @@ type model struct {
 	dirty bool
 	eHash uint64
 	gbuf  []int64
+	// numbers of the expected set that were requested at the last evaluated tick
+	matched int
 	// limited mode, per 16-bit value (what an observer of ticks can see): last tick at which
 	// the value was in the expected set and for how many consecutive ticks
 	last16          []int32
@@ -397,6 +404,7 @@ func (m *model) evalTick(t int64, pkts [][]uint16) (fs []finding, E, G []int64) 
 		sort.Slice(G, func(i, j int) bool { return G[i] < G[j] })
 	}
 	E = m.expected()
+	m.matched = 0
 	// merge walk
 	var omitted, extras, dups []int64
 	i, j := 0, 0
@@ -417,6 +425,7 @@ func (m *model) evalTick(t int64, pkts [][]uint16) (fs []finding, E, G []int64) 
 			extras = append(extras, G[j])
 			j++
 		default: // equal
+			m.matched++
 			if m.limit > 0 {
 				m.cnt[G[j]]++
 			}
@@ -674,31 +683,42 @@ type arrival struct {
 }
 
 type stream struct {
-	idx        int
-	ssrc       uint32
-	nack       bool
-	fbDesc     string
-	info       *interceptor.StreamInfo
-	bound      bool
-	bindAt     int
-	reader     interceptor.RTPReader
-	in         *innerReader
-	snd        *sender
-	models     []*model
-	undecided  bool // more exact-2^15 steps than forks are kept for: outcome "may"
-	hist       []arrivalRec
-	templates  [][]byte
-	pkt, buf   []byte
-	reported   map[string]bool
-	tickPkts   [][]uint16
-	ev         [nEvKinds]int64
-	halfSteps  int64
-	bigJumps   int64 // newer packets with step >= size
-	unexpErr   int64
-	maxStep    int64 // >0: arrivals that any receiver takes for a forward step larger than this are not fed
-	suppressed int64
-	wraps      int64
-	fed        int64
+	idx       int
+	ssrc      uint32
+	nack      bool
+	fbDesc    string
+	info      *interceptor.StreamInfo
+	bound     bool
+	bindAt    int
+	manual    bool // bound by a bookkeeping operation, not by bindAt
+	reader    interceptor.RTPReader
+	in        *innerReader
+	snd       *sender
+	models    []*model
+	undecided bool // more exact-2^15 steps than forks are kept for: outcome "may"
+	hist      []arrivalRec
+	templates [][]byte
+	pkt, buf  []byte
+	reported  map[string]bool
+	tickPkts  [][]uint16
+	ev        [nEvKinds]int64
+	halfSteps int64
+	bigJumps  int64 // newer packets with step >= size
+	unexpErr  int64
+	// bookkeeping inside the history
+	everBound   bool
+	unboundAt   int64           // ticks decided when UnbindRemoteStream was called (only if !bound && everBound)
+	boundMid    bool            // bound after the history had started
+	afterUnbind bool            // … and after some stream had been unbound in this case
+	sameTick    bool            // … with no tick between that unbind and this bind
+	servedOnce  bool            // a number of this stream's expected set has been requested since the bind
+	prev16      map[uint16]bool // same SSRC, previous binding: what was missing there at unbind time
+	prevFirst   uint16
+	ticksSince  int64 // stream-ticks decided since the bind
+	maxStep     int64 // >0: arrivals that any receiver takes for a forward step larger than this are not fed
+	suppressed  int64
+	wraps       int64
+	fed         int64
 }
 
 type engine struct {
@@ -713,6 +733,10 @@ type engine struct {
 	work    int64
 	h       *vf.Hash
 
+	lastUnbindTick                                                                                   int64 // ticks decided at the most recent UnbindRemoteStream, -1: none yet
+	unbinds, rebindsSameNoTick, rebindsSameTicks, bindsOtherNoTick, bindsOtherTicks, bindsAdditional int64
+	toleratedAfterUnbind, ticksAfterRebind                                                           int64
+
 	ticksChecked, ticksNonEmpty, ticksSilentOK, nackPkts, numsCompared, streamTicks int64
 	offTick                                                                         int64
 }
@@ -726,7 +750,7 @@ func newEngine(c *vf.Case, g config) (*engine, error) {
 	if err != nil {
 		return nil, err
 	}
-	e := &engine{c: c, g: g, icpt: i, bySSRC: map[uint32]*stream{}, h: vf.NewHash()}
+	e := &engine{c: c, g: g, icpt: i, bySSRC: map[uint32]*stream{}, h: vf.NewHash(), lastUnbindTick: -1}
 	e.w = &recWriter{t0: time.Now(), interval: g.interval}
 	i.BindRTCPWriter(e.w)
 	synctest.Wait() // the loop goroutine has created its ticker (at T0) and is parked
@@ -747,7 +771,65 @@ func (e *engine) addStream(ssrc uint32, fb []interceptor.RTCPFeedback, nackNegot
 
 func (e *engine) bind(st *stream) {
 	st.reader = e.icpt.BindRemoteStream(st.info, st.in)
-	st.bound = true
+	st.bound, st.everBound = true, true
+	var arrivals int64 // only the driver goroutine binds, and never while a batch is being fed
+	for _, o := range e.streams {
+		arrivals += o.fed
+	}
+	if e.tick > 0 || arrivals > 0 {
+		st.boundMid = true
+		if e.lastUnbindTick >= 0 {
+			st.afterUnbind = true
+			st.sameTick = e.lastUnbindTick == e.tick
+		}
+		if st.nack {
+			switch {
+			case st.prev16 != nil && st.sameTick:
+				e.rebindsSameNoTick++
+			case st.prev16 != nil:
+				e.rebindsSameTicks++
+			case st.afterUnbind && st.sameTick:
+				e.bindsOtherNoTick++
+			case st.afterUnbind:
+				e.bindsOtherTicks++
+			default:
+				e.bindsAdditional++
+			}
+		}
+	}
+	if e.c.Debug {
+		e.c.Logf("  BindRemoteStream stream=%d ssrc=%#x nack=%v (after tick %d)", st.idx, st.ssrc, st.nack, e.tick)
+	}
+}
+
+// unbind removes the stream. From the second tick after this call on, nothing may be
+// requested for its SSRC unless the SSRC is bound again.
+func (e *engine) unbind(st *stream) {
+	e.icpt.UnbindRemoteStream(st.info)
+	st.bound = false
+	st.unboundAt = e.tick
+	e.lastUnbindTick = e.tick
+	e.unbinds++
+	if e.c.Debug {
+		e.c.Logf("  UnbindRemoteStream stream=%d ssrc=%#x (after tick %d)", st.idx, st.ssrc, e.tick)
+	}
+}
+
+// rebound creates the stream object for a new binding of the SSRC of old (which must be
+// unbound): a fresh stream for the model – its first packet is the first one read after the
+// bind, nothing from the earlier binding may be requested.
+func (e *engine) rebound(old *stream) *stream {
+	st := e.addStream(old.ssrc, old.info.RTCPFeedback, old.nack, old.fbDesc, old.templates)
+	st.snd, st.maxStep = old.snd, old.maxStep
+	if old.nack && len(old.models) > 0 {
+		m := old.models[0]
+		st.prev16 = make(map[uint16]bool, len(m.missing))
+		for _, x := range m.missing {
+			st.prev16[uint16(x)] = true
+		}
+		st.prevFirst = uint16(m.first)
+	}
+	return st
 }
 
 func plainTemplate(ssrc uint32) []byte {
@@ -856,6 +938,16 @@ func (e *engine) advance(nt int64, after time.Duration) {
 			switch {
 			case st == nil:
 				e.c.Violation(sigUnboundSSRC, "%s\ntick #%d: TransportLayerNack for MediaSSRC %#x which was never bound; numbers %v", e.g, t, r.ssrc, r.seqs[:min(20, len(r.seqs))])
+			case !st.bound && st.everBound && st.nack:
+				if t <= st.unboundAt+1 {
+					e.toleratedAfterUnbind++ // the tick right after the unbind: not demanded either way
+				} else if !st.reported[sigUnboundStream] {
+					st.reported[sigUnboundStream] = true
+					e.c.Violation(sigUnboundStream, "%s\ntick #%d: TransportLayerNack for SSRC %#x, but UnbindRemoteStream was called for it after tick #%d and it has not been bound again; numbers %v\n%s\n%s",
+						e.g, t, r.ssrc, st.unboundAt, r.seqs[:min(20, len(r.seqs))], e.bookkeeping(), st.history())
+				}
+			case !st.bound && st.nack:
+				e.c.Violation(sigUnboundSSRC, "%s\ntick #%d: TransportLayerNack for MediaSSRC %#x which has not been bound yet; numbers %v", e.g, t, r.ssrc, r.seqs[:min(20, len(r.seqs))])
 			case !st.nack:
 				if !st.reported[sigNoFeedback] {
 					st.reported[sigNoFeedback] = true
@@ -875,6 +967,33 @@ func (e *engine) advance(nt int64, after time.Duration) {
 		}
 	}
 	e.tick += nt
+}
+
+// bookkeeping describes the bind/unbind operations of the case for a witness.
+func (e *engine) bookkeeping() string {
+	var b strings.Builder
+	b.WriteString("stream bookkeeping:")
+	for _, st := range e.streams {
+		fmt.Fprintf(&b, " [stream %d SSRC %#x nack=%v", st.idx+1, st.ssrc, st.nack)
+		switch {
+		case st.bound && st.boundMid:
+			fmt.Fprintf(&b, " bound mid-history")
+			if st.prev16 != nil {
+				b.WriteString(" (same SSRC bound again)")
+			}
+			if st.afterUnbind && st.sameTick {
+				b.WriteString(" with no tick since the last unbind")
+			}
+		case st.bound:
+			b.WriteString(" bound from the start")
+		case st.everBound:
+			fmt.Fprintf(&b, " unbound after tick #%d", st.unboundAt)
+		default:
+			b.WriteString(" not bound yet")
+		}
+		b.WriteString("]")
+	}
+	return b.String()
 }
 
 func (e *engine) checkStream(st *stream, t int64) {
@@ -936,7 +1055,17 @@ func (e *engine) checkStream(st *stream, t int64) {
 		e.ticksSilentOK++
 	}
 	e.h.U64(uint64(t)<<8 | uint64(st.idx)).U64(m.hashExpected(r.E))
+	st.ticksSince++
+	if st.boundMid {
+		e.ticksAfterRebind++
+	}
+	if m.matched > 0 {
+		st.servedOnce = true
+	}
 	for _, f := range r.fs {
+		if st.boundMid {
+			f = e.bookkeepingClass(st, f)
+		}
 		if st.reported[f.sig] {
 			continue
 		}
@@ -946,6 +1075,44 @@ func (e *engine) checkStream(st *stream, t int64) {
 			len(r.E), u16s(r.E, 24), len(r.G), len(st.tickPkts), u16s(r.G, 24),
 			uint16(m.first), uint16(m.highest), uint16(m.highest-m.size), uint16(m.highest), st.fed, st.history())
 	}
+}
+
+// bookkeepingClass names findings on a stream that was bound after the history had started
+// by what went wrong with the binding. It only renames (never drops) a finding.
+func (e *engine) bookkeepingClass(st *stream, f finding) finding {
+	switch f.sig {
+	case sigOmitted, sigFirstTime:
+		if !st.servedOnce {
+			// not one number of this stream's expected set has been requested since the bind
+			f.sig = sigLateBoundNoSrv
+			if st.afterUnbind {
+				f.sig = sigReboundNotSrv
+			}
+			f.msg += fmt.Sprintf(" – no number this stream is missing has been requested in the %d tick(s) since it was bound\n%s", st.ticksSince, e.bookkeeping())
+		}
+	case sigReqNoPacket, sigReqFirst, sigReqWindow, sigReqReceived, sigReqAhead, sigReqSkip:
+		if st.prev16 == nil {
+			break
+		}
+		stale, n := 0, 0
+		var ex []uint16
+		for _, p := range st.tickPkts {
+			for _, x := range p {
+				n++
+				if st.prev16[x] {
+					stale++
+					if len(ex) < 12 {
+						ex = append(ex, x)
+					}
+				}
+			}
+		}
+		if stale > 0 {
+			f.sig = sigStateSurvives
+			f.msg += fmt.Sprintf(" – %d of the %d requested numbers were missing on the previous binding of this SSRC (first packet there %d) when it was unbound, e.g. %v; after the re-bind the stream starts afresh\n%s", stale, n, st.prevFirst, ex, e.bookkeeping())
+		}
+	}
+	return f
 }
 
 func (st *stream) history() string {
@@ -1016,6 +1183,14 @@ func (e *engine) finish(kind string) {
 		c.Inconclusive("%d NACK packets were written at an instant that is not T0+k*interval; they cannot be attributed to a tick", e.offTick)
 	}
 	c.Add("arrivals_fed", fed)
+	c.Add("bookkeeping_unbinds", e.unbinds)
+	c.Add("bookkeeping_same_ssrc_rebound_no_tick_between", e.rebindsSameNoTick)
+	c.Add("bookkeeping_same_ssrc_rebound_ticks_between", e.rebindsSameTicks)
+	c.Add("bookkeeping_other_ssrc_bound_after_unbind_no_tick_between", e.bindsOtherNoTick)
+	c.Add("bookkeeping_other_ssrc_bound_after_unbind_ticks_between", e.bindsOtherTicks)
+	c.Add("bookkeeping_additional_stream_bound_mid_history", e.bindsAdditional)
+	c.Add("bookkeeping_nacks_tolerated_at_first_tick_after_unbind", e.toleratedAfterUnbind)
+	c.Add("stream_ticks_checked_on_streams_bound_mid_history", e.ticksAfterRebind)
 	c.Add("ticks_checked", e.ticksChecked)
 	c.Add("stream_ticks_checked", e.streamTicks)
 	c.Add("stream_ticks_with_nonempty_expected_set", e.ticksNonEmpty)
@@ -1046,6 +1221,22 @@ type step struct {
 	stream int // arrival on this stream (index) …
 	seq    int // … of this 16-bit number; -1: no arrival
 	ticks  int // then cross this many tick instants
+	op     int // opUnbind / opBind applied to `stream` (before anything else of the step)
+}
+
+const (
+	opUnbind = 1 // UnbindRemoteStream(stream)
+	opBind   = 2 // BindRemoteStream: the same SSRC again if the stream was unbound, else a new SSRC
+)
+
+func unbindStep(stream int) []step { return []step{{stream, -1, 0, opUnbind}} }
+func bindStep(stream int) []step   { return []step{{stream, -1, 0, opBind}} }
+func on(stream int, seqs ...int) []step {
+	out := make([]step, len(seqs))
+	for i, s := range seqs {
+		out[i] = step{stream, s, 0, 0}
+	}
+	return out
 }
 
 type script struct {
@@ -1058,7 +1249,7 @@ type script struct {
 func arr(seqs ...int) []step {
 	out := make([]step, len(seqs))
 	for i, s := range seqs {
-		out[i] = step{0, s, 0}
+		out[i] = step{0, s, 0, 0}
 	}
 	return out
 }
@@ -1079,7 +1270,7 @@ func join(parts ...[]step) []step {
 	return out
 }
 
-func tick(n int) []step { return []step{{0, -1, n}} }
+func tick(n int) []step { return []step{{0, -1, n, 0}} }
 
 var ms100 = 100 * time.Millisecond
 
@@ -1119,8 +1310,30 @@ var scripts = []script{
 	},
 	{ // two streams, same numbers, different losses: independence; limit counted per stream
 		name: "two-streams-independent", g: config{size: 64, limit: 2, interval: ms100}, streams: 2,
-		steps: []step{{0, 10, 0}, {1, 10, 0}, {0, 12, 0}, {1, 11, 0}, {1, 13, 0}, {0, -1, 1}, {1, 12, 0}, {0, 14, 0}, {0, -1, 1},
-			{0, 11, 0}, {1, 16, 0}, {0, -1, 3}, {0, 13, 0}, {0, -1, 1}},
+		steps: join(on(0, 10), on(1, 10), on(0, 12), on(1, 11, 13), tick(1), on(1, 12), on(0, 14), tick(1),
+			on(0, 11), on(1, 16), tick(3), on(0, 13), tick(1)),
+	},
+	// ---- stream bookkeeping inside a history -------------------------------------
+	{ // (a) the same SSRC unbound and bound again between two ticks: a fresh stream
+		name: "rebind-same-ssrc-no-tick-between", g: config{size: 64, interval: ms100}, streams: 2,
+		steps: join(on(0, 100, 102, 105), on(1, 7, 9), tick(2), unbindStep(0), bindStep(0), on(0, 500, 503), on(1, 11), tick(3),
+			on(0, 502, 98, 104), tick(2)),
+	},
+	{ // (a) one stream unbound, another SSRC bound, no tick in between
+		name: "unbind-then-bind-other-ssrc-no-tick-between", g: config{size: 64, limit: 2, interval: ms100}, streams: 2,
+		steps: join(on(0, 100, 102), on(1, 7, 9), tick(1), unbindStep(0), bindStep(2), on(2, 500, 503), tick(4), on(2, 501), on(1, 12), tick(2)),
+	},
+	{ // (b) the same SSRC bound again with ticks in between; numbers continue
+		name: "rebind-same-ssrc-ticks-between", g: config{size: 128, skip: 1, interval: ms100}, streams: 1,
+		steps: join(on(0, 65530, 65533, 2), tick(1), unbindStep(0), tick(3), bindStep(0), on(0, 4, 7, 65534, 0, 9), tick(3)),
+	},
+	{ // (b) another SSRC bound a few ticks after an unbind, (c) unbind only: silence for the SSRC that is gone
+		name: "unbind-only-then-bind-other-later", g: config{size: 64, interval: ms100}, streams: 2,
+		steps: join(on(0, 100, 104), on(1, 7, 9), tick(1), unbindStep(1), tick(4), bindStep(2), on(2, 300, 302), on(0, 106), tick(3)),
+	},
+	{ // (d) an additional stream bound in the middle of the history (with and without a tick before its first loss)
+		name: "bind-additional-mid-history", g: config{size: 64, limit: 1, interval: ms100}, streams: 1,
+		steps: join(on(0, 100, 104), tick(2), bindStep(1), on(1, 100, 102), on(0, 106), tick(2), bindStep(2), tick(1), on(2, 9, 5, 12), tick(2)),
 	},
 	{ // skipLastN == size: nothing may ever be requested
 		name: "skip-equals-size", g: config{size: 64, skip: 64, interval: ms100}, streams: 1,
@@ -1144,12 +1357,25 @@ func runScript(c *vf.Case, s script) {
 			st := e.addStream(ssrc, []interceptor.RTCPFeedback{{Type: "nack"}}, true, "[nack]", [][]byte{plainTemplate(ssrc)})
 			e.bind(st)
 		}
+		cur := append([]*stream(nil), e.streams...) // script stream index -> current binding
 		off := time.Duration(1)
 		for _, p := range s.steps {
+			switch p.op {
+			case opUnbind:
+				e.unbind(cur[p.stream])
+			case opBind:
+				if p.stream < len(cur) {
+					cur[p.stream] = e.rebound(cur[p.stream])
+				} else {
+					ssrc := uint32(0x1000 + p.stream)
+					cur = append(cur, e.addStream(ssrc, []interceptor.RTCPFeedback{{Type: "nack"}}, true, "[nack]", [][]byte{plainTemplate(ssrc)}))
+				}
+				e.bind(cur[p.stream])
+			}
 			if p.seq >= 0 {
 				off += 1000 // arrivals strictly inside the interval, 1 µs apart
 				e.sleepTo(time.Duration(e.tick)*s.g.interval + off%(s.g.interval-1) + 1)
-				e.feed(arrival{st: e.streams[p.stream], seq: uint16(p.seq), bigBuf: true})
+				e.feed(arrival{st: cur[p.stream], seq: uint16(p.seq), bigBuf: true})
 			}
 			if p.ticks > 0 {
 				e.advance(int64(p.ticks), 1)
@@ -1370,6 +1596,19 @@ func drawTemplates(r *vf.Rand, ssrc uint32) [][]byte {
 	return out
 }
 
+type pendingBind struct {
+	due     int     // batch number before which the bind happens (at least one tick after the unbind)
+	old     *stream // the same SSRC is bound again …
+	fresh   *stream // … or this new stream is bound
+	restart bool
+}
+
+// restartSender is the sender of a re-bound SSRC whose numbering starts somewhere else.
+func restartSender(r *vf.Rand, old *sender) *sender {
+	start := gen.StartIndex(r) + 1<<20
+	return &sender{r: r.Fork(), size: old.size, base: start, cur: start, p: old.p, maxBack: old.maxBack}
+}
+
 func runGenerated(c *vf.Case) {
 	r := c.R
 	g := drawConfig(r)
@@ -1410,6 +1649,12 @@ func runGenerated(c *vf.Case) {
 	tickMode := r.Intn(4) // 0 dense, 1 medium, 2 sparse, 3 mixed
 	pIdle := r.Pick(0, 1, 5, 15)
 	pBadRead := float64(r.Pick(0, 0, 1, 3)) / 100
+	// stream bookkeeping family: UnbindRemoteStream / BindRemoteStream inside the history
+	churn := !longIdle && r.Chance(0.3)
+	pChurn := float64(r.Pick(3, 10, 30, 60)) / 100
+	if tickMode == 0 {
+		pChurn /= 10 // hundreds of batches
+	}
 
 	c.Bubble(func() {
 		e, err := newEngine(c, g)
@@ -1420,10 +1665,13 @@ func runGenerated(c *vf.Case) {
 		// streams: overlapping number ranges on purpose (cross-talk would show)
 		commonStart := gen.StartIndex(r)
 		baseSSRC := r.U32() | 1
-		for i := 0; i < nNack; i++ {
+		mkNack := func(i int) *stream {
 			ssrc := baseSSRC + uint32(i)*uint32(r.Pick(1, 2, 0x10000, 0x01000000))
-			if _, dup := e.bySSRC[ssrc]; dup {
-				ssrc = baseSSRC + uint32(i) + 77
+			for k := uint32(77); ; k++ {
+				if _, dup := e.bySSRC[ssrc]; !dup {
+					break
+				}
+				ssrc = baseSSRC + uint32(i) + k
 			}
 			fb := []interceptor.RTCPFeedback{{Type: "nack"}}
 			desc := "[nack]"
@@ -1464,10 +1712,15 @@ func runGenerated(c *vf.Case) {
 				st.maxStep = 3000
 				st.snd.p.burstMax = min(st.snd.p.burstMax, 300)
 			}
+			return st
+		}
+		for i := 0; i < nNack; i++ {
+			st := mkNack(i)
 			if i > 0 && r.Chance(0.3) {
 				st.bindAt = r.Range(1, 6)
 			}
 		}
+		nextNack := nNack
 		if withPlain {
 			ssrc := baseSSRC ^ 0x5a5a0000
 			if _, dup := e.bySSRC[ssrc]; dup {
@@ -1494,12 +1747,92 @@ func runGenerated(c *vf.Case) {
 		fed := 0
 		batchNo := 0
 		didLong := false
+		var pending []pendingBind
+		churnOps := 0
 		var batch []arrival
 		for fed < nArr && e.work < budget {
 			batchNo++
 			for _, st := range e.streams {
-				if !st.bound && st.bindAt <= batchNo {
+				if !st.everBound && !st.manual && st.bindAt <= batchNo {
 					e.bind(st)
+				}
+			}
+			// stream bookkeeping inside the history: everything here happens strictly between
+			// two ticks; "mid"/"end" binds are still before the next tick
+			var midOps, endOps []func()
+			if churn {
+				keep := pending[:0]
+				for _, pb := range pending {
+					if pb.due > batchNo {
+						keep = append(keep, pb)
+						continue
+					}
+					nv := pb.fresh
+					if pb.old != nil {
+						nv = e.rebound(pb.old)
+						if pb.restart {
+							nv.snd = restartSender(r, nv.snd)
+						}
+					}
+					e.bind(nv)
+				}
+				pending = keep
+				if churnOps < 14 && len(e.streams) < 14 && r.Chance(pChurn) {
+					churnOps++
+					var cand []*stream
+					for _, st := range e.streams {
+						if st.bound && (st.nack || r.Chance(0.2)) {
+							cand = append(cand, st)
+						}
+					}
+					kind := r.Pick(0, 0, 0, 1, 1, 1, 2, 2, 3, 3, 4, 5, 5)
+					if len(cand) == 0 {
+						kind = 5
+					}
+					place := func(nv *stream) { // when, before the next tick, the bind happens
+						nv.manual = true
+						switch r.Intn(3) {
+						case 0:
+							e.bind(nv)
+						case 1:
+							midOps = append(midOps, func() { e.bind(nv) })
+						default:
+							endOps = append(endOps, func() { e.bind(nv) })
+						}
+					}
+					var v *stream
+					if len(cand) > 0 {
+						v = cand[r.Intn(len(cand))]
+					}
+					switch kind {
+					case 0: // (a) same SSRC again, no tick in between
+						e.unbind(v)
+						nv := e.rebound(v)
+						if r.Chance(0.3) {
+							nv.snd = restartSender(r, nv.snd)
+						}
+						place(nv)
+					case 1: // (a) another SSRC, no tick in between
+						e.unbind(v)
+						nv := mkNack(nextNack)
+						nextNack++
+						place(nv)
+					case 2: // (b) same SSRC again after at least one tick
+						e.unbind(v)
+						pending = append(pending, pendingBind{due: batchNo + r.Range(1, 3), old: v, restart: r.Chance(0.3)})
+					case 3: // (b) another SSRC after at least one tick
+						e.unbind(v)
+						nv := mkNack(nextNack)
+						nextNack++
+						nv.manual = true
+						pending = append(pending, pendingBind{due: batchNo + r.Range(1, 3), fresh: nv})
+					case 4: // (c) unbind only
+						e.unbind(v)
+					default: // (d) one more stream
+						nv := mkNack(nextNack)
+						nextNack++
+						place(nv)
+					}
 				}
 			}
 			var bs int
@@ -1525,6 +1858,9 @@ func runGenerated(c *vf.Case) {
 				if st.bound {
 					bound = append(bound, st)
 				}
+			}
+			if len(bound) == 0 {
+				bs = 0
 			}
 			for i := 0; i < bs; i++ {
 				st := bound[r.Intn(len(bound))]
@@ -1579,7 +1915,13 @@ func runGenerated(c *vf.Case) {
 				}
 			}
 			feedPart(batch[:cut])
+			for _, f := range midOps {
+				f()
+			}
 			feedPart(batch[cut:])
+			for _, f := range endOps {
+				f()
+			}
 
 			nt := int64(1)
 			if r.Intn(100) < pIdle {
